@@ -38,7 +38,7 @@ def limits(cfg):
 
 def blocklists(units, cfg):
     mp = cfg.get("model_parameters", {})
-    ub = set(mp.get("unit_blocklist", [])) | {u["id"] for u in units if u.get("status") == "unit_blocklisted"}
+    ub = set(mp.get("unit_blocklist", [])) | {u["id"] for u in units if u.get("status", "").startswith("unit_blocklisted")}
     sb = set(mp.get("postal_code_blocklist", [])) | {u["postal"] for u in units if u.get("status") == "state_blocklisted"}
     return ub, sb
 
